@@ -1424,6 +1424,8 @@ func (r *LogoutRequest) Redirect(relayState string) *url.URL {
 	w2, _ := flate.NewWriter(w1, 9)
 	doc := etree.NewDocument()
 	doc.SetRoot(r.Element())
+	// write a carriage return in the name ID as &#xD;: raw, the receiving parser reads it as a line feed
+	doc.WriteSettings.CanonicalText = true
 	if _, err := doc.WriteTo(w2); err != nil {
 		panic(err)
 	}
@@ -1461,6 +1463,8 @@ func (sp *ServiceProvider) MakePostLogoutRequest(nameID, relayState string) ([]b
 func (r *LogoutRequest) Post(relayState string) []byte {
 	doc := etree.NewDocument()
 	doc.SetRoot(r.Element())
+	// write a carriage return in the name ID as &#xD;: raw, the receiving parser reads it as a line feed
+	doc.WriteSettings.CanonicalText = true
 	reqBuf, err := doc.WriteToBytes()
 	if err != nil {
 		panic(err)
